@@ -12,6 +12,26 @@ func R4QueueShape(c *Ctx) {
 	const rule = "R4-queue-shape"
 	c.R.Rule(rule, "Agent.JobQueue is written only by tail appends to the owner's own queue, by the prefix/suffix split with one index in GetQueuedJobs, and by the operator's clear; GetQueuedJobs stops counting at DEMON_MAX_RESPONSE_LENGTH before including the crossing job and still hands out one oversized job; the no-job reply is chosen exactly when nothing was asked for or nothing is queued; UploadMemFileInChunks cuts consecutive [start:min(start+chunk,size)] slices with stride chunk, one file id and the total size on every chunk", 8)
 	gq := c.P.Func(PkgAgent, "Agent.GetQueuedJobs")
+	// --- the queue's backing array is never handed to something that rearranges it in place
+	inPlace := map[string]int{"slices.Reverse": 0, "slices.Sort": 0, "slices.SortFunc": 0, "slices.SortStableFunc": 0, "sort.Slice": 0, "sort.SliceStable": 0,
+		"sort.Sort": 0, "sort.Stable": 0, "math/rand.Shuffle": -1, "builtin.copy": 0}
+	for _, fn := range c.P.ModuleFuncs(NonYaotl) {
+		EachCall(fn, func(call ssa.CallInstruction) {
+			name := CalleeName(call)
+			// generic instantiations print as slices.Reverse[...]
+			if i := strings.Index(name, "["); i > 0 {
+				name = name[:i]
+			}
+			idx, ok := inPlace[name]
+			if !ok || idx < 0 || idx >= len(call.Common().Args) {
+				return
+			}
+			a := call.Common().Args[idx]
+			if DerivesFrom(a, IsFieldLoad(PkgAgent+".Agent", "JobQueue")) {
+				c.R.Bad(rule, FuncShort(fn), shortCallee(name)+"(<slice sharing the job queue's array>)", c.pos(call.Pos()), "a slice that shares its backing array with Agent.JobQueue is rearranged or overwritten in place: queued tasks change order (or content) without any store to the field")
+			}
+		})
+	}
 	// --- who writes JobQueue and how
 	for _, fn := range c.P.ModuleFuncs(NonYaotl) {
 		for _, b := range fn.Blocks {
